@@ -189,6 +189,8 @@ impl TimeTrigger {
 
         #[cfg(not(test))]
         let current = Local::now();
+        #[cfg(log4rs_verif)]
+        let current = verif::now_or(current);
         let next_time = TimeTrigger::get_next_time(current, config.interval, config.modulate);
         let next_roll_time = if config.max_random_delay > 0 {
             let random_delay = rand::thread_rng().gen_range(0..config.max_random_delay);
@@ -276,6 +278,47 @@ impl TimeTrigger {
     }
 }
 
+/// Verification hooks (only with `--cfg log4rs_verif`): a process-global clock
+/// override for the trigger and access to the schedule computation.
+#[cfg(log4rs_verif)]
+#[allow(missing_docs)]
+pub mod verif {
+    use chrono::{DateTime, Local, TimeZone};
+    use std::sync::Mutex;
+
+    static NOW: Mutex<Option<(i64, u32)>> = Mutex::new(None);
+
+    /// Overrides (Some((unix seconds, nanoseconds))) or restores (None) the trigger's clock.
+    pub fn set_now(now: Option<(i64, u32)>) {
+        *NOW.lock().unwrap_or_else(|e| e.into_inner()) = now;
+    }
+
+    pub(super) fn now_or(real: DateTime<Local>) -> DateTime<Local> {
+        match *NOW.lock().unwrap_or_else(|e| e.into_inner()) {
+            Some((secs, nanos)) => Local.timestamp_opt(secs, nanos).unwrap(),
+            None => real,
+        }
+    }
+}
+
+#[cfg(log4rs_verif)]
+#[allow(missing_docs)]
+impl TimeTrigger {
+    /// Forwards to the private schedule computation.
+    pub fn verif_get_next_time(
+        current: DateTime<Local>,
+        interval: TimeTriggerInterval,
+        modulate: bool,
+    ) -> DateTime<Local> {
+        TimeTrigger::get_next_time(current, interval, modulate)
+    }
+
+    /// The currently scheduled roll instant.
+    pub fn verif_next_roll_time(&self) -> DateTime<Local> {
+        *self.next_roll_time.read().unwrap()
+    }
+}
+
 impl Trigger for TimeTrigger {
     fn trigger(&self, _file: &LogFile) -> anyhow::Result<bool> {
         #[cfg(test)]
@@ -291,6 +334,8 @@ impl Trigger for TimeTrigger {
 
         #[cfg(not(test))]
         let current: DateTime<Local> = Local::now();
+        #[cfg(log4rs_verif)]
+        let current = verif::now_or(current);
         let mut next_roll_time = self.next_roll_time.write().unwrap();
         let is_trigger = current >= *next_roll_time;
         if is_trigger {
